@@ -160,6 +160,202 @@ def search_generic(mismatches, outdir):
     return None
 
 
+FUNCTIONAL_OPS = {
+    "(is_tight": "the verdict is determined by the program: C11.tight_iff_acyclic (isCyclic_sound, isCyclic_complete)",
+    "(private_recursion": "the verdict is determined by the program and its private predicates: C11 private recursion = a cycle of the private dependency graph (isCyclic_sound/complete)",
+    "(is_regular": "the verdict is determined by the rule: C11 regularity is a syntactic test",
+    "(files_sort": "the roles are determined by the extensions and the argument order: C20 roles theorems",
+}
+
+
+def search_functional(mismatches, outdir):
+    """Suites whose model value is the ONLY value the property admits (proved exact in Lean): a disagreement on such a
+    request is itself a concrete failing input. For external tasks only the accept/refuse outcome is decisive."""
+    cands = sorted((m for m in mismatches if "request" in m), key=lambda m: len(m["request"]))
+    for m in cands:
+        for op, why in FUNCTIONAL_OPS.items():
+            if m["request"].startswith(op):
+                return {"input_request": m["request"], "implementation_output": m["impl"], "proved_value": m["model"],
+                        "origin": m.get("origin"), "note": "failing input: " + why + "; the implementation returns a different value on this input"}
+    for m in cands:
+        if m["request"].startswith("(external"):
+            ie, me = m["impl"].startswith("(error"), m["model"].startswith("(error")
+            if ie != me or (ie and me and m["impl"] != m["model"]):
+                return {"input_request": m["request"], "implementation_output": m["impl"][:2000], "proved_value": m["model"][:2000],
+                        "origin": m.get("origin"),
+                        "note": "failing input: whether the task is accepted, and the reason for refusing it, is determined by the applicability conditions "
+                                "(C11.external_ok_implies / external_err_of_precheck); the implementation decides differently on this task"}
+    return None
+
+
+def _conj(fs):
+    """S-expression of the conjunction of a list of formulas (the empty conjunction is #true)."""
+    if not fs:
+        return ["A", "T"]
+    f = fs[0]
+    for g in fs[1:]:
+        f = ["B", "and", f, g]
+    return f
+
+
+def _first_found(pairs, what):
+    if not pairs:
+        return None
+    answers = ask_driver([q for _, q in pairs], timeout=SEARCH_BUDGET_S)
+    for (m, _), a in zip(pairs, answers):
+        if a.startswith("(found"):
+            return {"input_request": m["request"], "implementation_output": m["impl"][:4000], "model_output": m["model"][:4000],
+                    "origin": m.get("origin"), "bounded_countermodel": a,
+                    "note": "candidate failing input: " + what + " (evaluated over a finite window and confirmed on a wider one; bounded evaluation is a test, not a proof)"}
+    return None
+
+
+def search_completion(mismatches, outdir):
+    """C04: the implementation's completion against the model's, whose models are proved to be the stable models
+    (completion_tight) and which refuses exactly the non-completable theories (completion_refuses)."""
+    cands = sorted((m for m in mismatches if m.get("request", "").startswith("(completion")), key=lambda m: len(m["request"]))
+    pairs = []
+    for m in cands[:200]:
+        try:
+            a, b = sx.parse(m["impl"]), sx.parse(m["model"])
+        except Exception:
+            continue
+        a_some = isinstance(a, list) and len(a) == 2 and a[0] == "some"
+        b_some = isinstance(b, list) and len(b) == 2 and b[0] == "some"
+        if a == ["panic"]:
+            continue
+        if a_some != b_some:
+            return {"input_request": m["request"], "implementation_output": m["impl"][:4000], "proved_value": m["model"][:4000],
+                    "origin": m.get("origin"),
+                    "note": "failing input: whether a theory is completable is determined by its shape (C04.completion_refuses); "
+                            "the implementation " + ("accepts" if a_some else "refuses") + " this theory, the proved function does not"}
+        if a_some and b_some:
+            pairs.append((m, sx.dump(["cex_equiv", "classic", _conj(a[1]), _conj(b[1]), "1", "300"])))
+    w = _first_found(pairs, "an interpretation that satisfies exactly one of the implementation's completion and the proved completion of this theory")
+    return w or search_functional(mismatches, outdir)
+
+
+def search_c19(mismatches, outdir):
+    """C19: decompositions and eq-break evaluated on the implementation's outputs; the pipeline suites go to the generic search."""
+    cands = sorted((m for m in mismatches if "request" in m), key=lambda m: len(m["request"]))
+    pairs = []
+    for m in cands:
+        if len(pairs) >= 200:
+            break
+        try:
+            if m["request"].startswith("(decompose"):
+                r, a = sx.parse(m["request"]), sx.parse(m["impl"])
+                if isinstance(a, list) and a != ["panic"]:
+                    pairs.append((m, sx.dump(["cex_decompose", r[1], a, "1", "300"])))
+            elif m["request"].startswith("(break_eq"):
+                r, a = sx.parse(m["request"]), sx.parse(m["impl"])
+                if isinstance(a, list) and a != ["panic"]:
+                    pairs.append((m, sx.dump(["cex_equiv", "ht", r[1], _conj(a), "1", "300"])))
+        except Exception:
+            continue
+    w = _first_found(pairs, "the implementation's decomposition / eq-break of this input does not claim what the input claims (C19.independent_refutes, sequential_refutes, break_equiv_ht)")
+    return w or search_generic(mismatches, outdir)
+
+
+SYMBOL_ORDER_LINE = re.compile(r"^tff\(symbol_order_\d+, axiom, p__less__\(f__symbolic__\(([^()]+)\), f__symbolic__\(([^()]+)\)\)\)\.$")
+TRANSITION_LINE = re.compile(r"^tff\(\w*transition_axiom\w*, axiom, (.*)\)\.$")
+TRANSITION_SHAPE = re.compile(r"^(?:!\[([^\]]*)\]: \()?(\w+?)(?:\(([^()]*)\))? (=>|<=>|<=) (\w+?)(?:\(([^()]*)\))?\)?$")
+FC_DECL_LINE = re.compile(r"^tff\(type_function_constant_\d+, type, (\w+): symbol\)\.$")
+
+
+def generated_axiom_defects(text):
+    """Generated axioms of one problem text that are false in some standard interpretation (C12): a symbol_order axiom
+    whose constants are not in increasing order or that mentions a placeholder, a transition axiom that is not
+    `h p(V) => t p(V)`. Lines of any other shape are left to the correspondence."""
+    out = []
+    lines = text.split("\n")
+    fcs = {m.group(1) for l in lines for m in [FC_DECL_LINE.match(l)] if m}
+    for l in lines:
+        m = SYMBOL_ORDER_LINE.match(l)
+        if m:
+            a, b = m.group(1), m.group(2)
+            if a in fcs or b in fcs:
+                out.append(f"{l}   -- orders a placeholder, whose value is any symbol")
+            elif not a.encode() < b.encode():
+                out.append(f"{l}   -- false in the standard interpretation: not {a} < {b}")
+            continue
+        m = TRANSITION_LINE.match(l)
+        if m:
+            t = TRANSITION_SHAPE.match(m.group(1))
+            if t:
+                _, hp, hargs, conn, tp, targs = t.groups()
+                ok = conn == "=>" and hp.startswith("h") and tp.startswith("t") and hp[1:] == tp[1:] and (hargs or "") == (targs or "")
+                if not ok:
+                    out.append(f"{l}   -- not of the form h p(V) => t p(V): false for some H included in T")
+    return out
+
+
+def search_c12(mismatches, outdir):
+    """C12: the generated axioms in the implementation's problem texts, judged one by one."""
+    for m in sorted((m for m in mismatches if "impl" in m), key=lambda m: len(m.get("request", ""))):
+        try:
+            a = sx.parse(m["impl"])
+        except Exception:
+            continue
+        if not isinstance(a, list):
+            continue
+        for prob in a:
+            if isinstance(prob, list) and len(prob) == 2 and all(isinstance(x, tuple) for x in prob):
+                bad = generated_axiom_defects(prob[1][1])
+                if bad:
+                    return {"input_request": m.get("request"), "problem": prob[0][1], "false_generated_axioms": bad[:5],
+                            "origin": m.get("origin"),
+                            "note": "failing input: this task makes the implementation emit a generated axiom that is false in a standard interpretation"}
+    return None
+
+
+def _problems(x):
+    """{name: (axioms, conjectures)} of a driver/harness answer that is a list of problems, else None."""
+    if not isinstance(x, list) or (x and x[0] in ("error", "timeout", "panic")):
+        return None
+    out = {}
+    for p in x:
+        if not (isinstance(p, list) and len(p) == 3 and p[0] == "problem" and isinstance(p[1], tuple)):
+            return None
+        ax = [f[2] for f in p[2] if isinstance(f, list) and len(f) == 3 and f[1] == "axiom"]
+        cj = [f[2] for f in p[2] if isinstance(f, list) and len(f) == 3 and f[1] == "conjecture"]
+        out[p[1][1]] = (ax, cj)
+    return out
+
+
+def search_c13(mismatches, outdir):
+    """C13: the implementation's outline problems against the proved ones (outline_sound: every axiom of the model's
+    problems is a premise of the direction, an accepted definition or a lemma established by earlier problems)."""
+    w = search_functional([m for m in mismatches if m.get("request", "").startswith("(external")], outdir)
+    if w:
+        return w
+    pairs = []
+    for m in sorted((m for m in mismatches if m.get("request", "").startswith("(external")), key=lambda m: len(m["request"])):
+        try:
+            a, b = _problems(sx.parse(m["impl"])), _problems(sx.parse(m["model"]))
+        except Exception:
+            continue
+        if a is None or b is None:
+            continue
+        base = {"input_request": m["request"], "origin": m.get("origin")}
+        for name, (ax, cj) in a.items():
+            if name not in b:
+                continue
+            extra = [f for f in ax if f not in b[name][0]]
+            if extra and "outline" in name or (extra and any(f in sum((c for _, c in b.values()), []) for f in extra)):
+                return dict(base, problem=name, unjustified_axioms=[sx.dump(f) for f in extra[:3]],
+                            note="failing input: in this emitted problem the implementation uses as axioms formulas that are neither premises of the "
+                                 "direction, accepted definitions nor lemmas established by earlier problems (the proved outline does not have them there: C13.outline_sound)")
+            if cj != b[name][1] and len(pairs) < 150:
+                pairs.append((m, sx.dump(["cex_equiv", "classic", _conj(cj), _conj(b[name][1]), "1", "200"])))
+        missing = [n for n in b if n not in a and "outline" in n]
+        if missing:
+            return dict(base, missing_obligations=missing[:5],
+                        note="failing input: the proved outline establishes its lemmas by these problems; the implementation does not emit them "
+                             "but still uses the lemmas (C13.accepted_outline_lemmas_justified)")
+    return _first_found(pairs, "a conjecture of an outline problem differs in meaning from the obligation that establishes the lemma (C13.inductive_lemma_justified / outline_sound)")
+
+
 TPTP_VAR = re.compile(r"(?<![A-Za-z0-9_$])_*[A-Z][A-Za-z0-9_]*_([gis])(?![A-Za-z0-9_])")
 
 
@@ -544,6 +740,7 @@ PROPS = {
         "assumptions": COMMON_ASSUME + ["fixpoint simplification inside the pipeline is compared up to a pass bound of 256"],
     },
     "C04": {
+        "search": search_completion,
         "suites": [("completion", 1500, 30000), ("analyze", 800, 20000)],
         "rule": "theories = tau* of seeded programs + hand-shaped implication theories (atom / #false / malformed consequents, repeated and non-variable head arguments, "
                 "reverse implications, free variables) with random input-predicate sets; Completion::completion vs Lean `completion` (incl. None), and is_tight vs `isTight`",
@@ -573,6 +770,7 @@ PROPS = {
         "assumptions": COMMON_ASSUME,
     },
     "C11": {
+        "search": search_functional,
         "suites": [("analyze", 1500, 40000), ("natural", 600, 10000), ("external", 400, 8000)],
         "rule": "seeded programs + random private-predicate sets; is_tight / has_private_recursion / is_regular vs the Lean model (explicit cycle test instead of petgraph)",
         "level_text": "Full for the model: external_ok_implies / external_err_of_precheck (problems are emitted only if every applicability condition holds; otherwise an error and nothing else), "
@@ -586,6 +784,7 @@ PROPS = {
         "assumptions": COMMON_ASSUME,
     },
     "C19": {
+        "search": search_c19,
         "suites": [("strong", 400, 8000), ("break_eq", 1000, 20000), ("external", 300, 6000), ("decompose", 2000, 50000), ("simplify", 500, 10000), ("substitute", 800, 15000)],
         "rule": "as C03 (all flag combinations) + break_equivalences_formula on seeded formulas with equivalences under universal prefixes + the simplification portfolios and Formula::substitute (the simplify flag's part of the claim, as C07/C17)",
         "level_text": "Full for decomposition and eq-break: independent_refutes, sequential_refutes, decomposition_invariant, break_equiv(_ht), families_invariant proved for all problems, "
@@ -633,6 +832,7 @@ PROPS = {
         "assumptions": COMMON_ASSUME,
     },
     "C12": {
+        "search": search_c12,
         "suites": [("strong_text", 300, 6000), ("external_text", 150, 3000)],
         "rule": "whole problem texts of seeded strong-equivalence tasks: preamble (tied to the Lean transcription), symbol_order axioms, transition axioms vs the model, text equality",
         "level_text": "Full for the model: each of the 15 preamble axioms is a theorem about the standard structure, collected as std_satisfies_preamble : Preamble (stdStruct I) over the same TFF structure type that C06 interprets renderings in; symbol_chain_true / symbol_chain_covers / chain_distinct "
@@ -661,7 +861,7 @@ PROPS = {
                       "(composition of C04 completion_tight, C07, C19, private renaming, assembly; hypothesis: rename_conflicting_symbols is the identity on the assembled problems); cannot_produce_public_part - "
                       "with simplification off the last clause is the same as 'no stable model of that program has the same extents of the non-private predicates' (uniqueness of the private extents without "
                       "private recursion, private_extents_unique, by induction on the rank in the private dependency graph); external_refutes_specification - the same for a specification (annotated formulas, every role and direction annotation the task accepts) against a program: refuted iff the interpretation satisfies the user-guide assumptions, the specification's universal assumptions and the program's private definitions and either (forward) satisfies the specification's forward premises (forward assumptions, universal/forward spec formulas) without being a stable model of the program, or (backward) is a stable model of the program and falsifies a universal/backward spec formula (specification_roles: which annotation plays which part; a backward-annotated assumption of the specification is dropped by the code); external_refutes_programs_with_placeholders / external_refutes_specification_with_placeholders - both statements for user guides that declare placeholders of any sort: a program with placeholders is read as the reference semantics prescribes, every placeholder replaced by the precomputed term the interpretation assigns to it (Program.substSym (phNu m J.fc)); rests on tauStar_substSym and completion_substSym (tau* and completion commute with the substitution of closed terms for symbolic constants; replace_placeholders is an instance) and sat_substSym_congr (only the values of the substituted terms matter); external_sound_with_outline - for EVERY accepted task (placeholders, proof outline with lemmas, inductive lemmas, definitions of any direction): if no emitted problem (outline problems and final problems) has a countermodel, no interpretation satisfying the user-guide assumptions witnesses a difference in a requested direction; rests on assembled_outline_sound (an accepted outline does not change what is claimed), C13 outline_sound and proofOutlineFrom_defsExt (accepted definitions can be made true by re-interpreting only the predicates they define). With an outline the converse is not claimed (a false lemma has a countermodel although the sides agree). The literal property was FALSE on the unchanged tree at two points: the missing-output defect (repaired; missing_output_now_refutable) and the private rename clash (repaired; rename_clash_now_separated; private_renaming_fresh: the names chosen for clashing private predicates are no predicates of the task and pairwise different, by pigeonhole on the injective family p, p1, p2, ...; "
-                      "one_interpretation_carries_both_readings: any extents for the two sides that agree on the public predicates are read off one interpretation, the program side through the renaming). Corpus witnesses of both are replayed on the implementation and reported if they ever fail again.",
+                      "one_interpretation_carries_both_readings: any extents for the two sides that agree on the public predicates are read off one interpretation, the program side through the renaming). Corpus witnesses of both are replayed on the implementation and reported if they ever fail again. valid_problems_imply_external_equivalence - the property's conclusion about the two programs alone (program against program, no placeholders/outline, simplification off): if no interpretation refutes an emitted problem, every stable model of either program (under the user-guide assumptions) has the same public part as some stable model of the other, in each requested direction; rests on private_definitions_satisfiable (without private recursion the private predicates always have extents satisfying their completed definitions: iteration of the supported operator, stable after rank+1 rounds) and one_interpretation_carries_both_readings.",
         "level_note": PROOF_NOTE,
         "technique": "Lean 4 (pipeline model, counterexample theorems by kernel evaluation, decomposition theorems) + end-to-end differential correspondence",
         "design_ref": "DESIGN.md 6/C02",
@@ -669,6 +869,7 @@ PROPS = {
         "assumptions": COMMON_ASSUME + ["fixpoint simplification inside the pipeline is compared up to a pass bound of 256"],
     },
     "C13": {
+        "search": search_c13,
         "suites": [("external", 500, 10000)],
         "extra": corpus_findings("C13", "external", {
             "corpus:lemma_before_definition": ("lemma_before_definition", lambda a: a.startswith("((problem")),
@@ -704,6 +905,7 @@ PROPS = {
         "assumptions": COMMON_ASSUME + ["no worker thread panics (the unwraps in prove are on a freshly piped stdin and an open channel)"],
     },
     "C20": {
+        "search": search_functional,
         "suites": [("files", 1500, 40000)],
         "rule": "seeded directory trees (depth <= 2, file names with every relevant extension shape: .lp .spec .ug .po .LP .lp.bak '.', leading dots, no extension, names that sort differently by byte order) "
                 "created under /verif/work, given to Files::sort in random argument order; all five buckets and all six accessors vs the Lean model",
